@@ -113,3 +113,37 @@ def arena_placeholder_skips(prog, name, _depth=0):
                 total += inner
                 seen_any = True
     return total if seen_any else None
+
+
+EXACT_CONV_METHODS = {"try_into", "try_from", "into", "from", "branch", "from_residual", "expect", "unwrap", "map_err", "ok_or", "ok_or_else"}
+EXACT_INT_TO_FLOAT = {("u8", "f32"), ("u16", "f32"), ("i8", "f32"), ("i16", "f32"), ("u8", "f64"), ("u16", "f64"), ("u32", "f64"), ("i8", "f64"), ("i16", "f64"), ("i32", "f64")}
+INT_BITS = {"u8": 8, "u16": 16, "u32": 32, "u64": 64, "usize": 64, "i8": 8, "i16": 16, "i32": 32, "i64": 64, "isize": 64}
+
+
+def check_exact_conversion(ck, rule, prog, body_id, what):
+    """a numeric conversion helper either converts its argument EXACTLY or fails (error / panic): no defaulting, clamping,
+    saturating or truncating step.  The formulas that use the helper treat it as the identity."""
+    b = prog.body(body_id) if isinstance(body_id, str) else body_id
+    if b is None:
+        ck.undecided(rule, "exact-conversion/" + str(body_id).rsplit("::", 1)[-1], "conversion helper %s not found" % body_id)
+        return
+    bad = []
+    for fb in prog.family(b):
+        for _, t in fb.calls():
+            m = t.callee.method
+            if m not in EXACT_CONV_METHODS:
+                bad.append("calls `%s` (line %s)" % (m, t.line))
+        for _, st in fb.stmts():
+            if st.k == "assign" and st.rv["k"] == "cast":
+                kind = st.rv.get("kind", "")
+                src = fb.locals[st.rv["op"].place.local]["s"] if st.rv["op"].place is not None else (st.rv["op"].const or {}).get("ty", "?")
+                dst = st.rv.get("ty", "?")
+                if "IntToFloat" in kind and (src, dst) not in EXACT_INT_TO_FLOAT:
+                    bad.append("casts %s to %s with `as` (rounds above 2^24 / 2^53) (line %s)" % (src, dst, st.line))
+                elif "IntToInt" in kind and INT_BITS.get(dst, 0) < INT_BITS.get(src, 0):
+                    bad.append("narrows %s to %s with `as` (line %s)" % (src, dst, st.line))
+                elif "FloatToInt" in kind or "FloatToFloat" in kind and dst == "f32":
+                    bad.append("casts %s to %s (line %s)" % (src, dst, st.line))
+            if st.k == "assign" and st.rv["k"] == "bin":
+                bad.append("computes with `%s` (line %s)" % (st.rv["op"], st.line))
+    ck.ob(rule, "exact-conversion/" + b.short.rsplit("::", 1)[-1], not bad, "%s %s" % (b.short, ("converts %s exactly or fails" % what) if not bad else ("is not an exact-or-fail conversion of %s: it %s - large values are silently changed instead of being rejected" % (what, "; ".join(bad[:2])))), where=b.where())
